@@ -101,3 +101,136 @@ func cmdClosure(args []string) {
 		fmt.Printf("%s: %d funcs, %d further verified callees: %s\n", id, len(ps.Funcs), len(ex), strings.Join(ex, " "))
 	}
 }
+
+// inlinedOnlyHelpers: among the selected function keys, the unexported, loop-free, top-level functions WITHOUT a
+// contract whose every use in the repository is a static call from a function that is itself selected (or is such a
+// helper). The executor inlines such a callee at each call site, so its body is verified there, in the context of
+// the arguments it actually receives; verifying it once more on its own, with no precondition, would demand that
+// it be safe for arguments no caller passes (a freshly extracted helper would raise an alarm although nothing
+// changed). Functions with a contract, exported functions, methods, recursive functions, functions with loops and
+// functions used as values are always verified on their own.
+func (e *Engine) inlinedOnlyHelpers(keys []string) map[string]bool {
+	selected := map[string]bool{}
+	for _, k := range keys {
+		selected[k] = true
+	}
+	outer := func(f *ssa.Function) *ssa.Function {
+		for f.Parent() != nil {
+			f = f.Parent()
+		}
+		return f
+	}
+	cand := map[*ssa.Function]string{}
+	for _, k := range keys {
+		if e.contracts.Funcs[k] != nil {
+			continue
+		}
+		fs := e.fnByKey[k]
+		if len(fs) != 1 {
+			continue
+		}
+		f := fs[0]
+		if f.Parent() != nil || f.Blocks == nil || f.Synthetic != "" || f.Signature.Recv() != nil || f.Object() == nil || f.Object().Exported() || e.hasLoops(f) || f.Name() == "init" || f.Name() == "main" {
+			continue
+		}
+		cand[f] = k
+	}
+	if len(cand) == 0 {
+		return nil
+	}
+	callers := map[*ssa.Function]map[*ssa.Function]bool{}
+	bad := map[*ssa.Function]bool{}
+	var all []*ssa.Function
+	for _, fs := range e.fnByKey {
+		all = append(all, fs...)
+	}
+	seen := map[*ssa.Function]bool{}
+	var walk func(f *ssa.Function)
+	walk = func(f *ssa.Function) {
+		if f == nil || seen[f] || f.Blocks == nil {
+			return
+		}
+		seen[f] = true
+		for _, b := range f.Blocks {
+			for _, in := range b.Instrs {
+				if _, isDbg := in.(*ssa.DebugRef); isDbg {
+					continue
+				}
+				var callee *ssa.Function
+				if ci, ok := in.(ssa.CallInstruction); ok {
+					if _, isGo := in.(*ssa.Go); !isGo {
+						if _, isDefer := in.(*ssa.Defer); !isDefer {
+							callee = ci.Common().StaticCallee()
+						}
+					}
+				}
+				for _, op := range in.Operands(nil) {
+					if op == nil || *op == nil {
+						continue
+					}
+					g, ok := (*op).(*ssa.Function)
+					if !ok {
+						continue
+					}
+					if _, isCand := cand[g]; !isCand {
+						continue
+					}
+					if ci, isCall := in.(ssa.CallInstruction); isCall && callee == g && ci.Common().Value == *op {
+						if callers[g] == nil {
+							callers[g] = map[*ssa.Function]bool{}
+						}
+						callers[g][outer(f)] = true
+					} else {
+						bad[g] = true // used as a value, spawned or deferred
+					}
+				}
+				if mc, ok := in.(*ssa.MakeClosure); ok {
+					walk(mc.Fn.(*ssa.Function))
+				}
+			}
+		}
+		for _, an := range f.AnonFuncs {
+			walk(an)
+		}
+	}
+	for _, f := range all {
+		walk(f)
+	}
+	res := map[string]bool{}
+	if os.Getenv("GOVC_DEBUG_INLINE") != "" {
+		for f, k := range cand {
+			fmt.Fprintln(os.Stderr, "cand", k, "bad", bad[f], "callers", len(callers[f]))
+		}
+	}
+	for f, k := range cand {
+		if !bad[f] && len(callers[f]) > 0 && !callers[f][f] {
+			res[k] = true
+		}
+	}
+	// every caller must be verified in this run (selected and not itself skipped) or be such a helper
+	for changed := true; changed; {
+		changed = false
+		for f, k := range cand {
+			if !res[k] {
+				continue
+			}
+			for c := range callers[f] {
+				ck := e.fnKey(c)
+				if ck2, isCand := cand[c]; isCand && res[ck2] {
+					continue
+				}
+				if !selected[ck] || !e.inRepo(c) {
+					delete(res, k)
+					changed = true
+					break
+				}
+				if con := e.contracts.Funcs[ck]; con != nil && con.Trusted != "" {
+					delete(res, k)
+					changed = true
+					break
+				}
+			}
+		}
+	}
+	return res
+}
